@@ -84,13 +84,14 @@ err_t beltSDEEncr(void* dest, const void* src, size_t count,
 		!memIsValid(dest, count))
 		return ERR_BAD_INPUT;
 	// создать состояние
-	state = blobCreate(beltSDE_keep());
+	state = blobCreate(beltSDE_keep() + 16);
 	if (state == 0)
 		return ERR_OUTOFMEMORY;
-	// зашифровать
+	// зашифровать (iv может пересекаться с dest)
 	beltSDEStart(state, key, len);
+	memCopy((octet*)state + beltSDE_keep(), iv, 16);
 	memMove(dest, src, count);
-	beltSDEStepE(dest, count, iv, state);
+	beltSDEStepE(dest, count, (octet*)state + beltSDE_keep(), state);
 	// завершить
 	blobClose(state);
 	return ERR_OK;
@@ -109,13 +110,14 @@ err_t beltSDEDecr(void* dest, const void* src, size_t count,
 		!memIsValid(dest, count))
 		return ERR_BAD_INPUT;
 	// создать состояние
-	state = blobCreate(beltSDE_keep());
+	state = blobCreate(beltSDE_keep() + 16);
 	if (state == 0)
 		return ERR_OUTOFMEMORY;
-	// расшифровать
+	// расшифровать (iv может пересекаться с dest)
 	beltSDEStart(state, key, len);
+	memCopy((octet*)state + beltSDE_keep(), iv, 16);
 	memMove(dest, src, count);
-	beltSDEStepD(dest, count, iv, state);
+	beltSDEStepD(dest, count, (octet*)state + beltSDE_keep(), state);
 	// завершить
 	blobClose(state);
 	return ERR_OK;
